@@ -322,8 +322,33 @@ DEFAULT_PROFILE = dict(
 )
 
 
+W = dict(var=2, const=1, map=8, mapref=2, mapold=2, fold=2, zip=1, dependon=1, bind=4, cutoff=2,
+         observe=5, obs_misc=8, write=9, stabilise=8, misc=1, observeexport=0, mapexport=0, dropnode=0, dropvar=0)
+
+
+def w(**kw):
+    d = dict(W)
+    d.update(kw)
+    return d
+
+
 PROFILES = {
     "basic": {},
+    # C01: pure functions, cutoffs that only suppress equal values, much re-observation
+    "c01": dict(cutoffs=["eq", "never", "fn:0", "boxed:0"], wo_fids=[0, 1, 2],
+                weights=w(bind=6, write=12, stabilise=9, observe=6, obs_misc=9, mapref=3),
+                obs_ops=["clone", "drop", "drop", "disallow", "read", "read"]),
+    "binds": dict(weights=w(bind=9, write=14, stabilise=10, map=6, observe=6), max_bind_depth=3),
+    "observers": dict(weights=w(observe=8, obs_misc=12, write=12, stabilise=10),
+                      obs_ops=["clone", "drop", "drop", "drop", "disallow", "read"]),
+    "reads": dict(cutoffs=["eq", "never", "fn:0", "boxed:0"], weights=w(observe=7, obs_misc=12, write=12, stabilise=6, map=6),
+                  obs_ops=["read", "read", "read", "clone", "drop", "disallow"], read_after_stabilise=0.3),
+    "subs": dict(weights=w(observe=7, obs_misc=16, write=12, stabilise=10, bind=3, cutoff=0),
+                 obs_ops=["subscribe", "subscribe", "subscribe", "unsubscribe", "stateunsub", "clone", "drop", "disallow", "read"]),
+    "lifecycle": dict(weights=w(var=1, map=3, bind=1, observe=8, obs_misc=20, write=5, stabilise=7, mapref=0, mapold=0, fold=0,
+                                zip=0, dependon=0, cutoff=0),
+                      obs_ops=["clone", "drop", "drop", "disallow", "read", "read", "subscribe", "subscribe", "unsubscribe",
+                               "unsubscribe", "stateunsub"]),
     "drops": dict(export_prob=0.25, dangling_prob=0.3,
                   weights=dict(var=3, const=1, map=6, mapref=2, mapold=2, fold=2, zip=1, dependon=1, bind=7,
                                cutoff=1, observe=5, obs_misc=8, write=10, stabilise=9, misc=1,
